@@ -174,6 +174,7 @@ fn partitions(len: usize, rand: u64, pair_limit: usize) -> Vec<Vec<usize>> {
         }
     }
     let mut st = rand;
+    // (zero-length writes at line ends are added by the caller, which knows the bytes)
     for _ in 0..64 {
         let n = 1 + (splitmix(&mut st) % 8) as usize;
         let mut cuts: Vec<usize> = (0..n).map(|_| (splitmix(&mut st) % (len as u64 + 1)) as usize).collect();
@@ -320,7 +321,17 @@ pub fn check(c: &Case, obs: &mut Obs) -> Result<(), String> {
             v.sort();
             vec![v]
         }
-        None => partitions(x.stream.len(), c.rand, PAIR_LIMIT),
+        None => {
+            let mut v = partitions(x.stream.len(), c.rand, PAIR_LIMIT);
+            // a zero-length write (a doubled cut) at line ends, at the start and at the end
+            let line_ends: Vec<usize> = (1..=x.stream.len()).filter(|i| x.stream[*i - 1] == b'\n').take(80).collect();
+            for e in &line_ends {
+                v.push(vec![*e, *e]);
+            }
+            v.push(vec![0, 0]);
+            v.push(line_ends.iter().flat_map(|e| [*e, *e]).collect());
+            v
+        }
     };
     let mut seen: HashSet<&[usize]> = HashSet::new();
     let mut interesting = 0u64;
